@@ -106,17 +106,21 @@ VQuery(ev) ==
                 ELSE VBad
 
 \* qr_decompose(in, q, r) / rq_decompose(in, r, q)
-VQR(ev) ==
-    LET t == ev.t f == Fm(ev) C == ev.C R == ev.R K == MxK(C, R) A == DM(ev, 1, C, R) IN
-    IF ~FinArgs(ev) \/ ~MagArgs(ev) THEN VSkip
+VQRwith(ev, A, K, P) ==          \* A = the input (qr) / the row-reversed transpose of the input (rq), P = MxRhoP(A, K)
+    LET t == ev.t f == Fm(ev) C == ev.C R == ev.R IN
+    IF ~MxQRDomainP(P) THEN VSkip
+    ELSE IF ~(MxAllFin(t, ev.q) /\ MxAllFin(t, ev.r)) THEN VBad
     ELSE IF ev.op = "qr" THEN
-        IF ~MxQRDomain(A, K) THEN VSkip
-        ELSE IF ~(MxAllFin(t, ev.q) /\ MxAllFin(t, ev.r)) \/ Len(ev.q) # K * R \/ Len(ev.r) # C * K THEN VBad
-        ELSE VBool(MxQRPost(A, MxMatD(t, K, R, ev.q), MxMatD(t, C, K, ev.r), f))
+        (IF Len(ev.q) # K * R \/ Len(ev.r) # C * K THEN VBad
+         ELSE VBool(\E q \in {MxMatD(t, K, R, ev.q)} : \E r \in {MxMatD(t, C, K, ev.r)} : MxQRPostP(A, q, r, P, f)))
     ELSE
-        IF ~MxRQDomain(A) THEN VSkip
-        ELSE IF ~(MxAllFin(t, ev.q) /\ MxAllFin(t, ev.r)) \/ Len(ev.q) # C * K \/ Len(ev.r) # K * R THEN VBad
-        ELSE VBool(MxRQPost(A, MxMatD(t, K, R, ev.r), MxMatD(t, C, K, ev.q), f))
+        (IF Len(ev.q) # C * K \/ Len(ev.r) # K * R THEN VBad
+         ELSE VBool(\E tq \in {MxRQq(MxMatD(t, C, K, ev.q))} : \E tr \in {MxRQr(MxMatD(t, K, R, ev.r))} : MxQRPostP(A, tq, tr, P, f)))
+VQR(ev) ==
+    IF ~FinArgs(ev) \/ ~MagArgs(ev) THEN VSkip
+    ELSE LET K == MxK(ev.C, ev.R) IN
+         MxLet(IF ev.op = "qr" THEN DM(ev, 1, ev.C, ev.R) ELSE MxRQin(DM(ev, 1, ev.C, ev.R)),
+               LAMBDA A : MxLet(MxRhoP(A, K), LAMBDA P : VQRwith(ev, A, K, P)))
 
 \* compile probes of documented call forms (harness/x02_probe.cpp): ok = 1 when the translation unit compiles
 VProbe(ev) ==
